@@ -34,6 +34,97 @@ def mc_cfg(name, kinds, keys, masks, timeouts, steps, delta=0, kbk=None, inv=Non
     return os.path.basename(p)
 
 
+RACE_INV = "TypeOK DropOnlyIfQuiet DropWhenQuiet NothingLost FullValue"
+
+
+def race_cfg(name, updaters, nupd, nobs, timeouts, maxnow, genfirst=False, spec="Spec", inv=RACE_INV):
+    """Configurations of specs/Recency/RecencyRace.tla (updates and observations split into their steps)."""
+    p = os.path.join(vlib.SPECS, SPEC, "gen_race_%s.cfg" % name)
+    with open(p, "w") as f:
+        f.write("SPECIFICATION %s\nCONSTANTS\n" % spec)
+        f.write(" Updaters = {%s}\n NUpd = %d\n NObs = %d\n Timeouts = {%s}\n Deltas = {1}\n" %
+                (",".join(str(u) for u in updaters), nupd, nobs, ",".join(str(t) for t in timeouts)))
+        f.write(" GenFirst = %s\n MaxNow = %d\n" % ("TRUE" if genfirst else "FALSE", maxnow))
+        f.write("INVARIANTS %s\nCHECK_DEADLOCK FALSE\n" % inv)
+    return os.path.basename(p)
+
+
+def race_part(chk, env, thorough):
+    """Concurrency: an update is two steps (value write, generation bump), an observation three (generation
+    read, decision, value read).  TLC over all interleavings; the real code driven with emitters held inside
+    the inner storage primitive (custom public-API Storage) and validated by TraceRecencyRace."""
+    cfgs = [("2upd_x1_3obs", dict(updaters=[1, 2], nupd=1, nobs=3, timeouts=[2, 3], maxnow=8)),
+            ("2upd_x2_3obs", dict(updaters=[1, 2], nupd=2, nobs=3, timeouts=[2], maxnow=7))]
+    if thorough:
+        cfgs += [("2upd_x2_4obs", dict(updaters=[1, 2], nupd=2, nobs=4, timeouts=[2, 3], maxnow=10)),
+                 ("3upd_x1_3obs", dict(updaters=[1, 2, 3], nupd=1, nobs=3, timeouts=[2, 3], maxnow=8))]
+    for name, kw in cfgs:
+        cfg = race_cfg(name, **kw)
+        r = vlib.tlc_mc(SPEC, "RecencyRace", cfg, workers=8, timeout=3000 if thorough else 600, tag="race_" + name)
+        if not chk.expect_mc_ok(r, "RecencyRace/" + name):
+            return
+        chk.log("TLC race %s: %d distinct states, depth %d, %.0fs" % (name, r["distinct"], r["depth"], r["wall"]))
+    # the model must be able to tell the orders apart: generation published before the value is rejected
+    cfg = race_cfg("wit_genfirst", updaters=[1], nupd=1, nobs=2, timeouts=[2], maxnow=6, genfirst=True,
+                   spec="SimSpec", inv="DropOnlyIfQuiet NothingLost")
+    r = vlib.tlc_mc(SPEC, "SimRecencyRace", cfg, workers=4, timeout=600, coverage=False, tag="race_wit")
+    wit = vlib.last_state_var(r["out"], "hist")
+    if r["invariant"] not in ("DropOnlyIfQuiet", "NothingLost") or not wit:
+        chk.tool_error("RecencyRace no longer rejects GenFirst = TRUE (generation bumped before the value)", r["out"][-2000:])
+    chk.notes["race_genfirst_witness"] = {"violates": r["invariant"], "depth": r["depth"], "schedule": wit}
+
+    # impl -> spec: directed timelines (emitter held before / after the primitive's effect around observation #1,
+    # counter / gauge / histogram, advance by timeout-1 / timeout / timeout+1) + random legal schedules
+    tr = chk.path("race_record.ndjson")
+    rc, out, summ = vlib.harness("c12", ["race", "--runs", 3000 if thorough else 400, "--out", tr], env=env, timeout=1800)
+    if rc != 0 or not summ:
+        chk.tool_error("c12 race failed", out)
+    n = vlib.validate_concat(chk, SPEC, "TraceRecencyRace", "TraceRecencyRace.cfg", tr, "recorded schedules with updates held inside the storage primitive", KNOWN, timeout=3000)
+    chk.cov["traces_validated_against_impl"] += n
+    chk.cov["distinct_nontrivial"] += summ.get("runs_with_overlap", 0)
+    chk.notes["race_record"] = summ
+    chk.log("race: %s" % json.dumps(summ))
+
+    # spec -> impl: interleavings generated by TLC from the split model (+ the GenFirst counterexample schedule:
+    # on the real code it must behave as the value-first model says)
+    progs = chk.path("race_programs.ndjson")
+    with open(progs, "w") as f:
+        f.write(json.dumps({"mode": "race", "timeout": 2, "ops": wit}) + "\n")
+        for kind in ("c", "g", "h"):
+            f.write(json.dumps({"mode": "race", "kind": kind, "timeout": 2, "ops": wit}) + "\n")
+        behs = []
+        if thorough:
+            # every complete interleaving of one update x two observations x ticks up to 3 (about 34 000)
+            cfg = race_cfg("enum", updaters=[1], nupd=1, nobs=2, timeouts=[2], maxnow=3, spec="SimSpec", inv="Emit")
+            r = vlib.tlc_mc(SPEC, "SimRecencyRace", cfg, workers=1, timeout=900, coverage=False, tag="race_enum")
+            behs = vlib.replay_lines(r["out"])
+            if not behs or not r["ok"]:
+                chk.tool_error("no interleavings enumerated", r["out"][-2000:])
+            chk.notes["race_enumerated_interleavings"] = len(behs)
+        for name, kw in [("sim2", dict(updaters=[1, 2], nupd=2, nobs=3, timeouts=[2, 3], maxnow=9)),
+                         ("sim1", dict(updaters=[1], nupd=3, nobs=4, timeouts=[2], maxnow=9))]:
+            cfg = race_cfg(name, spec="SimSpec", inv="Emit", **kw)
+            r = vlib.tlc_mc(SPEC, "SimRecencyRace", cfg, workers=1, timeout=900, coverage=False, tag="race_" + name,
+                            extra=["-simulate", "num=%d" % (1500 if thorough else 250), "-depth", "100", "-seed", str(chk.seed)])
+            b = vlib.replay_lines(r["out"])
+            if not b:
+                chk.tool_error("no behaviours generated by race " + name, r["out"][-2000:])
+            behs += b
+        for b in behs:
+            f.write(json.dumps(b) + "\n")
+    tr2 = chk.path("race_replay.ndjson")
+    rc, out, summ2 = vlib.harness("c12", ["race-replay", "--in", progs, "--out", tr2], env=env, timeout=1800)
+    if rc != 0 or not summ2:
+        chk.tool_error("c12 race-replay failed", out)
+    n2 = vlib.validate_concat(chk, SPEC, "TraceRecencyRace", "TraceRecencyRace.cfg", tr2, "replayed TLC interleavings", KNOWN, timeout=3000)
+    chk.cov["traces_validated_against_impl"] += n2
+    chk.cov["distinct_nontrivial"] += summ2.get("runs_with_overlap", 0)
+    chk.notes["race_replay"] = summ2
+    chk.log("race-replay: %s" % json.dumps(summ2))
+    if summ.get("hangs", 0) or summ2.get("hangs", 0):
+        chk.log("emitters stuck inside the code under test:", summ.get("hangs", 0) + summ2.get("hangs", 0))
+
+
 def trace_cfg():
     """TraceRecency.cfg is committed for KeyByKind = FALSE; the repaired variant is generated."""
     if not KEY_BY_KIND:
@@ -47,8 +138,11 @@ def trace_cfg():
 def run(chk):
     thorough = chk.tier == "thorough"
     chk.assumptions += [
-        "one observation (generation read + should_store_<kind>) is atomic with respect to updates: sequential histories only, "
-        "as the property quantifies; the window between get_generation() and delete_op (which does not re-check the generation) is not explored",
+        "Recency.tla: calls are atomic (sequential histories). RecencyRace.tla: one covered series, updates split into value write / "
+        "generation bump and observations into generation read / decision / value read, sequentially consistent interleavings; "
+        "an update that overlaps an observation may be ordered after it (happens-before form of the property); the run ends at a drop",
+        "race conformance: the update's two halves are separated by holding the emitter inside a custom inner Storage primitive "
+        "(before / after its effect); steps are handshakes, so only interleavings at those points are exercised on the real code",
         "time is the mock quanta clock in whole ticks (1 tick = 1 ms); Instant subtraction is exact",
         "Generation numbers are read from the Debug rendering of the opaque `Generation`",
         "Prometheus mode: one series per (kind, name), no labels; families are read from render() by a line scan "
@@ -160,13 +254,18 @@ def run(chk):
         # the witnesses were replayed and accepted, yet no observation deviated: the code no longer shares entries
         chk.tool_error("CF12 witness did not reproduce on the real code although the traces were accepted")
 
+    # ---------------------------------------------------------------- 5. updates racing with observations
+    race_part(chk, env, thorough)
+
     with open(tr) as f:
         head = [json.loads(next(f)) for _ in range(10)]
     chk.cov["samples"].append({"source": "recorded run (first events)", "events": head})
     chk.cov["rule"] = ("exhaustive TLC over all timelines (register / update incl. value-preserving / tick in {1,T-1,T,T+1} / observe / "
                        "render) within the listed bounds, all masks, timeouts None/2/3; implementation runs = seeded random timelines "
                        "(direct Registry+Recency and through the Prometheus recorder) + every timeline of a tiny scope enumerated by TLC "
-                       "+ TLC random walks, each run validated event by event against the spec; "
+                       "+ TLC random walks, each run validated event by event against the spec; RecencyRace: all interleavings of "
+                       "1-3 updaters x 1-2 updates (2 steps each) x 3-4 observations (3 steps each) x ticks, real code driven with emitters "
+                       "held inside the storage primitive (directed + random + TLC-generated schedules); "
                        "distinct_nontrivial = distinct runs in which at least one series was dropped")
 
 
@@ -189,9 +288,23 @@ def _trace_to_programs(path, out):
             ev = e.get("ev")
             if ev == "reset":
                 flush()
-                cur = {"mode": e["mode"], "mask": e["mask"], "timeout": e["timeout"], "ops": []}
+                cur = {"mode": e["mode"], "mask": e.get("mask", []), "timeout": e["timeout"], "ops": []}
+                if "kind" in e:
+                    cur["kind"] = e["kind"]
             elif cur is None:
                 continue
+            elif ev == "u.begin":
+                cur["ops"].append(["ubegin", e["u"], e["d"]])
+            elif ev == "u.value":
+                cur["ops"].append(["ustep1", e["u"]])
+            elif ev == "u.end":
+                cur["ops"].append(["ustep2", e["u"]])
+            elif ev == "o.gen":
+                cur["ops"].append(["ogen"])
+            elif ev == "o.decide":
+                cur["ops"].append(["odecide"])
+            elif ev == "o.val":
+                cur["ops"].append(["oval"])
             elif ev == "register":
                 cur["ops"].append(["register", e["kind"], e["key"]])
             elif ev == "update":
@@ -221,8 +334,13 @@ def replay(chk, path):
         progs = chk.path("replay_programs.ndjson")
         _trace_to_programs(path, progs)
     tr = chk.path("replay_rerun.ndjson")
-    rc, out, summ = vlib.harness("c12", ["replay", "--in", progs, "--out", tr], env={"VERIF_SEED": str(chk.seed)})
+    race = json.loads(open(progs).readline()).get("mode") == "race"
+    rc, out, summ = vlib.harness("c12", ["race-replay" if race else "replay", "--in", progs, "--out", tr],
+                                 env={"VERIF_SEED": str(chk.seed)})
     if rc != 0 or not summ:
         chk.tool_error("c12 replay failed", out)
-    n = vlib.validate_concat(chk, SPEC, "TraceRecency", trace_cfg(), tr, "replay " + path, KNOWN)
+    if race:
+        n = vlib.validate_concat(chk, SPEC, "TraceRecencyRace", "TraceRecencyRace.cfg", tr, "replay " + path, KNOWN)
+    else:
+        n = vlib.validate_concat(chk, SPEC, "TraceRecency", trace_cfg(), tr, "replay " + path, KNOWN)
     chk.cov["traces_validated_against_impl"] += n
